@@ -149,6 +149,9 @@ func VerifC10Lifecycle() {
 			sum += b.(int)
 			_, tk := vRead("nns", "tokensOf", ownerAcct(o))
 			vAssert(len(tk.([][]byte)) == held, "C10/tokensOf-lists-exactly-the-names-recorded-for-the-owner")
+			// the same observation under C11 (this job is also registered there): an account that lost a name,
+			// by transfer or by somebody else's re-registration after expiry, keeps no trace of holding it
+			vAssert(len(tk.([][]byte)) == held && b.(int) == held, "C11/a-former-owner-holds-nothing-of-the-name")
 		}
 		vAssert(sum == supply, "C10/supply-is-the-sum-of-balances")
 		q := ni // the name the step was about
@@ -165,4 +168,45 @@ func VerifC10Lifecycle() {
 			vCoverIf(nOwner[q] != 0 && tr == nExp[q]-1, "queried-one-millisecond-before-expiration")
 		}
 	}
+}
+
+// C10 under an expiring TLD: the committee registers the TLD org with a symbolic lifetime, o1 registers
+// a.org with another symbolic lifetime and adds a record, a symbolic time span passes. ownerOf, properties
+// and the record getters answer exactly while the WHOLE chain (the name and its TLD) is unexpired. The
+// deployment's own TLD lives ten years, which no other history of this property reaches.
+func VerifC10ExpiredTLD() {
+	vDeploy("nns", []any{[]any{"com", "ops@nspcc.io"}})
+	o1 := vAcct("o1")
+	tldLife, life := vInt("tldLifetimeSeconds"), vInt("nameLifetimeSeconds")
+	vAssume(tldLife >= 1 && tldLife <= 1000 && life >= 1 && life <= 2000)
+	vSign(vCommitteeAcct(), true)
+	ok, _ := vInvoke("nns", "registerTLD", "org", "e@nspcc.io", 1, 2, tldLife, 3)
+	vAssume(ok)
+	expTLD := vTime() + tldLife*1000
+	vSign(o1, true)
+	ok, r := vInvoke("nns", "register", "a.org", o1, "e@nspcc.io", 1, 2, life, 3)
+	vAssume(ok && r.(bool))
+	expName := vTime() + life*1000
+	vSign(o1, true)
+	ok, _ = vInvoke("nns", "addRecord", "a.org", 16, "data")
+	vAssume(ok)
+	dt := vInt("milliseconds")
+	vAssume(dt >= 1 && dt <= 2100000)
+	vAdvanceTime(dt)
+	t := vTime() + 1 // the instant of the reads
+	live := t < expTLD && t < expName
+	okO, ow := vRead("nns", "ownerOf", "a.org")
+	okP, _ := vRead("nns", "properties", "a.org")
+	vAssert(okO == live && okP == live, "C10/ownerOf-and-properties-answer-only-while-the-whole-chain-is-unexpired")
+	if okO {
+		vAssert(vEq(ow.([]byte), o1), "C10/ownerOf-names-the-owner")
+	}
+	okG, _ := vRead("nns", "getRecords", "a.org", 16)
+	okR, _ := vRead("nns", "resolve", "a.org", 16)
+	okA, _ := vRead("nns", "getAllRecords", "a.org")
+	vAssert(okG == live && okR == live && okA == live, "C10/records-answer-only-while-the-whole-chain-is-unexpired")
+	vCoverIf(t >= expTLD && t < expName, "tld-expired-while-the-name-is-alive")
+	vCoverIf(t < expTLD && t >= expName, "name-expired-while-the-tld-is-alive")
+	vCoverIf(live, "both-alive")
+	vCoverIf(t == expTLD && t < expName, "read-exactly-at-the-expiration-of-the-tld")
 }
